@@ -29,6 +29,7 @@ const (
 	EffEnv      = "env"
 	EffSignal   = "signal"
 	EffClose    = "close"
+	EffRandom   = "random" // reading the process's CSPRNG (crypto/rand.Reader): no file-system object is named or touched
 )
 
 // MutatingFS is the set of effects that change the file system.
@@ -311,10 +312,40 @@ func (p *Prog) ExtCalls(f *ssa.Function) (calls []ExtCall, unknown []ExtCall) {
 				}
 				eff = worst
 			}
+			// io.ReadFull / io.ReadAll read from their reader operand: what they touch is decided by
+			// that reader. crypto/rand.Reader is the CSPRNG (the same source crypto/rand.Read uses), not a file of the
+			// store; every other reader keeps the file-system-read classification.
+			if eff == EffFSRead && readerFuncs[name] && len(c.Common().Args) > 0 && IsCryptoRandReader(c.Common().Args[0]) {
+				eff = EffRandom
+			}
 			calls = append(calls, ExtCall{In: c, Fn: f, Name: name, Effect: eff})
 		}
 	}
 	return
+}
+
+// readerFuncs: io functions whose effect is a read from their first operand.
+var readerFuncs = map[string]bool{"io.ReadFull": true, "io.ReadAll": true}
+
+// IsCryptoRandReader: v is the package-level variable crypto/rand.Reader read directly (through interface
+// conversions only) — not a parameter, field or phi that might also carry another reader.
+func IsCryptoRandReader(v ssa.Value) bool {
+	for i := 0; v != nil && i < 8; i++ {
+		switch x := v.(type) {
+		case *ssa.MakeInterface:
+			v = x.X
+		case *ssa.ChangeInterface:
+			v = x.X
+		case *ssa.ChangeType:
+			v = x.X
+		case *ssa.UnOp:
+			g, ok := x.X.(*ssa.Global)
+			return ok && x.Op.String() == "*" && g.Pkg != nil && g.Pkg.Pkg.Path() == "crypto/rand" && g.Name() == "Reader"
+		default:
+			return false
+		}
+	}
+	return false
 }
 
 // WriterRoot classifies the destination of a writer-typed sink by walking back from the writer value.
